@@ -45,7 +45,7 @@ ASSUMPTIONS = [
     "localized names are used only if the language itself reads '15 <name> 2015' as that month in a heuristic parse (single-meaning names)",
     "pytz gives the local fields of the simulated instant (independent of the C library the code under test uses)",
 ]
-EXPECTED_PROBES = {"clock_year_used": 1, "clock_day_used": 1, "clock_month_used": 1, "localized": 1, "tick_straddle": 1, "utc_local_date_differ": 1}
+EXPECTED_PROBES = {"rendered_time_on_a_dst_edge_of_the_process_zone": 1, "clock_year_used": 1, "clock_day_used": 1, "clock_month_used": 1, "localized": 1, "tick_straddle": 1, "utc_local_date_differ": 1}
 
 
 def fields_of(fmt):
@@ -201,6 +201,25 @@ def boundary_clock(rng, zone, lo_year, hi_year):
     return world.to_us(u), kind
 
 
+def dst_edge_wall(rng, zone):
+    """A naive wall time inside a gap (skipped) or an overlap (repeated) of `zone`, 1952..2035."""
+    import pytz
+
+    tz = pytz.timezone(zone)
+    tt = getattr(tz, "_utc_transition_times", None)
+    ti = getattr(tz, "_transition_info", None)
+    if not tt or not ti:
+        return None
+    idx = [i for i in range(1, len(tt)) if 1952 <= tt[i].year <= 2035 and ti[i][0] != ti[i - 1][0]]
+    if not idx:
+        return None
+    i = rng.choice(idx)
+    before, after = ti[i - 1][0], ti[i][0]
+    lo, hi = sorted([tt[i] + before, tt[i] + after])  # gap or overlap interval in wall-clock terms
+    span = int((hi - lo).total_seconds())
+    return (lo + dt.timedelta(seconds=rng.randrange(0, max(1, span)))).replace(microsecond=0)
+
+
 def draw_policy(rng, tier):
     r = rng.random()
     if r < 0.7:
@@ -291,8 +310,16 @@ def gen_case(rng, ctx):
         if "year" not in has and m == 2 and day == 29:
             continue
         break
+    dst_edge = False
     hour = rng.choice([0, 0, 11, 12, 13, 23, rng.randrange(24)])
     d = dt.datetime(y, m, day, hour, rng.randrange(60), rng.randrange(60), rng.choice([0, 1, 999999, rng.randrange(10 ** 6)]))
+    if zone != "UTC" and "%y" not in fmt and rng.random() < 0.06:
+        # a wall-clock time that the *process zone* skips or repeats (DST change): to a custom format
+        # it is a datetime like any other -- the naive result must come back unchanged
+        g = dst_edge_wall(rng, zone)
+        if g is not None and not ("year" not in has and g.month == 2 and g.day == 29):
+            d = g.replace(microsecond=d.microsecond)
+            dst_edge = True
     prefs = {}
     if rng.random() < 0.7:
         prefs["PREFER_DAY_OF_MONTH"] = rng.choice(["first", "last", "current"])
@@ -337,7 +364,7 @@ def gen_case(rng, ctx):
             pass
     return {
         "zone": zone, "clock_us": clock_us, "policy": policy, "boundary": bkind, "fmt": fmt, "d": [d.year, d.month, d.day, d.hour, d.minute, d.second, d.microsecond],
-        "string": s, "lang": lang, "localized": bool(localized), "prefs": prefs,
+        "string": s, "lang": lang, "localized": bool(localized), "prefs": prefs, "dst_edge": dst_edge,
     }
 
 
@@ -394,6 +421,8 @@ def eval_case(case):
         stats["clock_day_used"] = 1
     if case["localized"]:
         stats["localized"] = 1
+    if case.get("dst_edge"):
+        stats["rendered_time_on_a_dst_edge_of_the_process_zone"] = 1
     if reads and len({local_fields(u, case["zone"]).date() for u in reads}) > 1:
         stats["tick_straddle"] = 1
     lf, uf = local_fields(case["clock_us"], case["zone"]), world.from_us(case["clock_us"])
